@@ -312,6 +312,154 @@ fn cmd_anymatch(args: &[&str]) -> String {
     }
 }
 
+
+// Several paths against one glob: results joined by `|`.
+fn cmd_mm(args: &[&str]) -> String {
+    let expression = unhex(args[0]);
+    match guarded(|| {
+        Glob::new(&expression).map(|glob| {
+            let n = glob.captures().count();
+            args[1..]
+                .iter()
+                .map(|path| match_text(&glob, n, &unhex(path)))
+                .collect::<Vec<_>>()
+                .join("|")
+        })
+    }) {
+        None => "panic".into(),
+        Some(Ok(report)) => report,
+        Some(Err(_)) => "err".into(),
+    }
+}
+
+// `anymm <k> <e1>..<ek> <p1>..`: several paths against a combinator (built three ways).
+fn cmd_anymm(args: &[&str]) -> String {
+    let k: usize = args[0].parse().unwrap();
+    let expressions: Vec<String> = args[1..1 + k].iter().map(|arg| unhex(arg)).collect();
+    let paths: Vec<String> = args[1 + k..].iter().map(|arg| unhex(arg)).collect();
+    match guarded(|| {
+        build_any(&expressions).map(|any| {
+            let compiled = wax::any(
+                expressions
+                    .iter()
+                    .map(|expression| Glob::new(expression).unwrap()),
+            )
+            .unwrap();
+            let nested = wax::any([build_any(&expressions).unwrap()]).unwrap();
+            let nested_any = wax::any([wax::any([build_any(&expressions)]).unwrap()]).unwrap();
+            paths
+                .iter()
+                .map(|path| {
+                    let text = match_text(&any, 1, path);
+                    let is_match = any.is_match(path.as_str());
+                    if compiled.is_match(path.as_str()) != is_match
+                        || nested.is_match(path.as_str()) != is_match
+                        || nested_any.is_match(path.as_str()) != is_match
+                    {
+                        format!("{} ANY-ROUTES-DIFFER", text)
+                    }
+                    else {
+                        text
+                    }
+                })
+                .collect::<Vec<_>>()
+                .join("|")
+        })
+    }) {
+        None => "panic".into(),
+        Some(Ok(report)) => report,
+        Some(Err(_)) => "err".into(),
+    }
+}
+
+// Every conversion route of a glob must give the same observables (C19).
+fn cmd_routes(args: &[&str]) -> String {
+    use std::str::FromStr;
+
+    let expression = unhex(args[0]);
+    let paths: Vec<String> = args[1..].iter().map(|arg| unhex(arg)).collect();
+    let observe = |glob: &Glob<'_>| -> String {
+        let n = glob.captures().count();
+        let mut output = glob_report(glob);
+        for path in paths.iter() {
+            output.push('|');
+            output.push_str(&match_text(glob, n, path));
+        }
+        output
+    };
+    match guarded(|| {
+        let glob = match Glob::new(&expression) {
+            Ok(glob) => glob,
+            Err(_) => return "err".to_string(),
+        };
+        let base = observe(&glob);
+        let displayed = glob.to_string();
+        let mut routes: Vec<(&str, String)> = vec![];
+        routes.push((
+            "display",
+            Glob::new(&displayed).map_or_else(|_| "err".into(), |glob| observe(&glob)),
+        ));
+        routes.push(("clone", observe(&glob.clone())));
+        routes.push(("into_owned", observe(&glob.clone().into_owned())));
+        routes.push((
+            "from_str",
+            Glob::from_str(&expression).map_or_else(|_| "err".into(), |glob| observe(&glob)),
+        ));
+        routes.push((
+            "try_from",
+            Glob::try_from(expression.as_str()).map_or_else(|_| "err".into(), |glob| observe(&glob)),
+        ));
+        routes.push((
+            "owned_clone",
+            observe(&glob.clone().into_owned().clone()),
+        ));
+        let mut differing = vec![];
+        if displayed != expression {
+            differing.push("display-text");
+        }
+        for (name, observed) in routes.iter() {
+            if *observed != base {
+                differing.push(*name);
+            }
+        }
+        // Combinator routes: text, compiled, owned, nested.
+        let any_observe = |any: &Any<'_>| -> String {
+            let mut output = String::new();
+            output.push_str(&field("tree", guarded(|| any.verif_tree())));
+            output.push_str(&field("re", guarded(|| hex(any.verif_pattern()))));
+            output.push_str(&program_fields(any));
+            for path in paths.iter() {
+                output.push('|');
+                output.push_str(&match_text(any, 1, path));
+            }
+            output
+        };
+        let any_text = wax::any([expression.as_str()]).map(|any| any_observe(&any));
+        let any_compiled = wax::any([glob.clone()]).map(|any| any_observe(&any));
+        let any_owned = wax::any([glob.clone().into_owned()]).map(|any| any_observe(&any));
+        match (any_text, any_compiled, any_owned) {
+            (Ok(a), Ok(b), Ok(c)) => {
+                if a != b {
+                    differing.push("any-compiled");
+                }
+                if a != c {
+                    differing.push("any-owned");
+                }
+            },
+            _ => differing.push("any-build"),
+        }
+        if differing.is_empty() {
+            format!("same {}", routes.len() + 3)
+        }
+        else {
+            format!("differ {}", differing.join(","))
+        }
+    }) {
+        None => "panic".into(),
+        Some(report) => report,
+    }
+}
+
 fn cmd_not(args: &[&str]) -> String {
     use wax::walk::{FileIterator, PathExt};
 
@@ -448,6 +596,9 @@ fn dispatch(line: &str) -> String {
         "match" => cmd_match(&args),
         "any" => cmd_any(&args),
         "anymatch" => cmd_anymatch(&args),
+        "mm" => cmd_mm(&args),
+        "anymm" => cmd_anymm(&args),
+        "routes" => cmd_routes(&args),
         "not" => cmd_not(&args),
         "part" => cmd_part(&args),
         "esc" => cmd_esc(&args),
